@@ -39,6 +39,7 @@ type daemonFan struct {
 	Rpm      bool   `json:"rpm"`
 	OrigMode int    `json:"orig_mode"`
 	OrigPwm  int    `json:"orig_pwm"`
+	MaxPwm   int    `json:"max_pwm,omitempty"` // configured maxPwm (0 = not configured)
 }
 type daemonIn struct {
 	Scn   int         `json:"scn"`
@@ -251,6 +252,10 @@ func daemonRun(ctx *Ctx, seq int, in daemonIn) (daemonObs, string, []string) {
 		}
 		fc := configuration.FanConfig{ID: id, Curve: curve,
 			ControlAlgorithm: &configuration.ControlAlgorithmConfig{Direct: &configuration.DirectControlAlgorithmConfig{}}}
+		if f.MaxPwm > 0 {
+			v := f.MaxPwm
+			fc.MaxPwm = &v
+		}
 		switch f.Kind {
 		case "hwmon":
 			hw++
@@ -464,6 +469,9 @@ func daemonRun(ctx *Ctx, seq int, in daemonIn) (daemonObs, string, []string) {
 	tags := []string{fmt.Sprintf("scn=%d", in.Scn), fmt.Sprintf("nsig=%d", in.NSig), fmt.Sprintf("exit=%d", obs.Exit)}
 	for _, f := range in.Fans {
 		tags = append(tags, "fan="+f.Kind)
+		if f.MaxPwm > 0 {
+			tags = append(tags, "maxpwm-configured")
+		}
 	}
 	if obs.Missed != "" {
 		tags = append(tags, "marker-missed="+obs.Missed)
@@ -474,7 +482,11 @@ func daemonRun(ctx *Ctx, seq int, in daemonIn) (daemonObs, string, []string) {
 func daemonGen(rng *Rng, scn int) daemonIn {
 	in := daemonIn{Scn: scn, Scale: 20}
 	hwf := func() daemonFan {
-		return daemonFan{Kind: "hwmon", Exists: !rng.Chance(1, 5), Rpm: true, OrigMode: rng.Pick([]int{2, 2, 2, 0, 1, 5}), OrigPwm: rng.Pick([]int{0, 77, 120, 255})}
+		f := daemonFan{Kind: "hwmon", Exists: !rng.Chance(1, 5), Rpm: true, OrigMode: rng.Pick([]int{2, 2, 2, 0, 1, 5}), OrigPwm: rng.Pick([]int{0, 77, 120, 255})}
+		if rng.Chance(1, 2) {
+			f.MaxPwm = 200 // a configured maxPwm must not cap the last-resort write of the restore
+		}
+		return f
 	}
 	filef := func(rpm bool) daemonFan {
 		return daemonFan{Kind: "file", Rpm: rpm, OrigMode: 1, OrigPwm: rng.Pick([]int{0, 60, 200})}
